@@ -76,10 +76,34 @@ class Tables:
         return b[:n]
 
     def str_size(self):
+        """sizeof(polyseed_str) as compiled into the library (debug info); if the library no longer uses the public typedef, the public header's value"""
         t = self.P.ditypes.get('typedef:polyseed_str')
         if not t:
-            raise AnalysisBroken('typedef polyseed_str not found in debug info')
+            return self.public_str_size()
         return t['size_bits'] // 8
+
+    def public_str_size(self):
+        """sizeof(polyseed_str) as a caller sees it: the typedef in include/polyseed.h, type-resolved by clang"""
+        if getattr(self, '_pub', None) is None:
+            import subprocess, re
+            from . import frontend
+            root = frontend.repo_root()
+            hdr = os.path.join(root, 'include', 'polyseed.h')
+            p = subprocess.run(['clang-14', '-fsyntax-only', '-x', 'c', '-w', '-Xclang', '-ast-dump=json', '-Xclang', '-ast-dump-filter=polyseed_str', hdr],
+                               stdout=subprocess.PIPE, stderr=subprocess.PIPE, text=True)
+            txt = p.stdout; dec = json.JSONDecoder(); i = 0; size = None
+            while i < len(txt):
+                while i < len(txt) and txt[i] in ' \n\r\t': i += 1
+                if i >= len(txt): break
+                try: o, i = dec.raw_decode(txt, i)
+                except ValueError: break
+                if o.get('kind') == 'TypedefDecl' and o.get('name') == 'polyseed_str':
+                    m = re.fullmatch(r'char\[(\d+)\]', (o.get('type') or {}).get('desugaredQualType') or (o.get('type') or {}).get('qualType') or '')
+                    if m: size = int(m.group(1))
+            if size is None:
+                raise AnalysisBroken('public typedef polyseed_str (char[N]) not found in include/polyseed.h')
+            self._pub = size
+        return self._pub
 
     def ordered(self):
         return [self.langs[s] for s in self.registry if s in self.langs]
